@@ -133,6 +133,36 @@ def scenario_periodic(tp):
                           'body': b}]}
 
 
+def scenario_jump(tp):
+    """Directed template: a routine is pending on a TempoClock for a beat
+    ahead (played with a quant); another routine of that clock moves the
+    clock's beats forward past that beat.  The pending routine is overdue
+    then and runs at once, with the beat it was waiting for - in both modes.
+    One clock: race-free."""
+    q = tp.choice([4, 3, 2])
+    w = tp.choice([1, 1.5])
+    # (just past the pending beat: the overdue routine's logical time, the
+    # second of the beat it waited for, stays after the start of the program;
+    # the driver does nothing after the jump - it goes on from its old beat,
+    # as documented, i.e. in the past)
+    jump = q - w + 0.5
+    follower = [['rec'], ['draw', 'rand_i'], ['msg', 600], ['wait', 1],
+                ['rec'], ['msg', 601]]
+    driver = [['wait', w], ['beats', 0, jump], ['rec'], ['draw', 'rand_i']]
+    # (the follower is played a little after beat 0, which is on every
+    # grid: its grid point is beat q)
+    root = [['spawn', 1], ['wait', 1 / 64], ['spawn', 2], ['wait', 12.0],
+            ['rec']]
+    return {'t0': rprog.T0,
+            'clocks': [{'tempo': tp.choice([1, 2]), 'beats': 0}],
+            'routines': [{'clock': 'sys', 'quant': None,
+                          'seed': tp.draw(1000), 'body': root},
+                         {'clock': 't0', 'quant': 0, 'seed': None,
+                          'body': driver},
+                         {'clock': 't0', 'quant': [q, 0], 'seed': None,
+                          'body': follower}]}
+
+
 def gen_appsys(tp, tier):
     """NRT only: a program over AppClock as well.  In non-real-time mode
     AppClock keeps logical time like SystemClock (no drift), so the program
@@ -207,6 +237,9 @@ def gen_case(tp, tier):
         if tp.draw(3) == 0:
             return {'prog': scenario_periodic(tp), 'knobs': kn, 'perturb': 1,
                     'family': 0, 'scenario': 'periodic'}
+        if tp.draw(3) == 0:
+            return {'prog': scenario_jump(tp), 'knobs': kn, 'perturb': 1,
+                    'family': 0, 'scenario': 'jump'}
         if tp.draw(2):
             return {'prog': scenario_retie(tp), 'knobs': kn, 'perturb': 1,
                     'family': 0, 'scenario': 'retie'}
@@ -625,7 +658,7 @@ def run_case(case, tape, ctx):
                              f'routine {victim} drew more')
     # 1. RT vs NRT
     ok, why = well_synchronised(prog, nrt['trace'])
-    if case.get('scenario') in ('past', 'retie', 'periodic'):
+    if case.get('scenario') in ('past', 'retie', 'periodic', 'jump'):
         ok, why = True, None       # race-free by construction
     if ok and not case.get('scenario') and any(
             st[0] == 'resume' and len(st) > 2
@@ -634,13 +667,13 @@ def run_case(case, tape, ctx):
         # the same instant without leaving a trace of the second wake-up:
         # judged only in the directed scenario, which keeps them apart
         ok, why = False, ('moved-routine',)
-    if ok and case.get('scenario') not in ('past', 'retie', 'periodic'):
+    if ok and case.get('scenario') not in ('past', 'retie', 'periodic', 'jump'):
         # a routine that one world never got to run leaves no event there:
         # the real-time timeline must be free of conflicts as well
         # (physical order: unrelated events of different clocks inside one
         # margin window may appear in either order)
         ok, why = well_synchronised(prog, rt['trace'], slack=MARGIN)
-    if ok and case.get('scenario') not in ('past', 'retie', 'periodic'):
+    if ok and case.get('scenario') not in ('past', 'retie', 'periodic', 'jump'):
         # ... and so must the union of both (each world may have silenced a
         # different one of two routines that race, e.g. each pausing the
         # other at the same instant)
